@@ -82,6 +82,10 @@ class ExecBase:
             return GlobalRef("builtin", name)
         if name in GLOBAL_CONSTS:
             return GLOBAL_CONSTS[name]()
+        if name in S.OPAQUE_GLOBALS:
+            return V.opaque_const("global:" + name)
+        if name in S.OPAQUE_FUNCS:
+            return GlobalRef("dotted", name)
         return None
 
     def declare_enum(self, name):
@@ -151,14 +155,31 @@ class ExecBase:
             todo.extend(rec.bases)
         return names, complete
 
+    def wf(self, st, v):
+        """Well-formedness facts of a freshly introduced value (list lengths are non-negative)."""
+        if isinstance(v, Val):
+            if v.ty.kind == "list":
+                st.assume(V.list_len(v) >= 0)
+            elif v.ty.kind == "opt" and v.ty.args[0].kind == "list":
+                st.assume(V.list_len(V.opt_val(v)) >= 0)
+            elif v.ty.kind == "tuple":
+                for it in V.tuple_items(v):
+                    self.wf(st, it)
+        return v
+
     # ---- lvalues -------------------------------------------------------------------------
     def note_local_write(self, st, name):
         if st.written_locals is not None:
             st.written_locals.add(name)
 
-    def note_heap_write(self, st, rec, field):
+    def note_heap_write(self, st, rec, field, ref=None):
+        """ref=None: the whole field map may change; otherwise only the cell of `ref`."""
         if st.written_heap is not None:
-            st.written_heap.add((rec, field))
+            cells = st.written_heap.setdefault(S.fkey(rec, field), {})
+            if ref is None:
+                cells[None] = None
+            else:
+                cells[ref.sexpr()] = ref
 
     def set_local(self, st, name, val, fresh=False):
         want = self.contract.locals.get(name)
@@ -178,7 +199,7 @@ class ExecBase:
         if rec is None:
             raise UnsupportedError(f"assignment to unmodelled field {ref.ty.name}.{attr}")
         st.heap.write(rec, attr, fty, ref.t, val)
-        self.note_heap_write(st, rec, attr)
+        self.note_heap_write(st, rec, attr, ref.t)
 
 
 _qcache = {}
@@ -225,7 +246,13 @@ BUILTIN_NAMES = {"len", "str", "int", "float", "set", "list", "dict", "sorted", 
                  "setattr", "range", "enumerate", "reversed", "iter", "next", "hash", "sum", "open", "bool", "tuple",
                  "any", "all", "zip", "super", "hasattr", "abs"}
 
+def _environ():
+    d = T.DictT(T.NAME, T.OPAQUE)
+    return Val(d, [z3.Const(f"os_environ_{i}", srt) for i, srt in enumerate(d.sorts())])
+
+
 GLOBAL_CONSTS = {
+    "os.environ": _environ,
     "sys.maxsize": lambda: V.mk_int(9223372036854775807),
     "sys.platform": lambda: O.strlit("linux"),
 }
